@@ -130,6 +130,9 @@ def predDrop (u : Nat) : M Unit := fun m =>
 
 def predClear : M Unit := fun m => (.ok (), { m with pred := {} })
 
+/-- harness only: an entry of `_pred` for a triple that need not be stored -/
+def predPut (k : List Int) (u : Nat) : M Unit := fun m => (.ok (), { m with pred := m.pred.insert k u })
+
 /-! ### comparisons of managers -/
 
 /-- `dd.bdd.BDD.__eq__` is inherited from the protocol class `dd._abc.BDD`, whose body is a
